@@ -47,6 +47,10 @@ type c14Case struct {
 	// phase (a long-lived, warmed-up grammar; most runs keep the graphs cold so that first
 	// use happens concurrently)
 	Warm        []c14Task   `json:"warm,omitempty"`
+	// ShareFiles: the caller loads each distinct input once and hands the SAME *text.File to
+	// every run that parses it (own file set, reader and context per run, all prepared - and
+	// the file's line table built - before the runs start)
+	ShareFiles bool `json:"share_files,omitempty"`
 	Graphs      []GraphSpec `json:"graphs"`
 	Tasks       []c14Task   `json:"tasks"`
 	MapSeed     uint64      `json:"map_seed"`
@@ -183,6 +187,7 @@ func (*c14Prop) Gen(r *Rand, pl *Plan) Case {
 		nt = r.Range(5, 7) // more callers than a typical test would start
 	}
 	useFiles := r.Chance(1, 10) // all inputs of this case go through text.ReadFile
+	c.ShareFiles = !useFiles && r.Chance(1, 10)
 	for i := 0; i < nt; i++ {
 		t := c14Task{Graph: r.Intn(ng), Eval: r.Chance(2, 3), StaticCheck: r.Chance(1, 6)}
 		spec := &c.Graphs[t.Graph]
@@ -192,7 +197,7 @@ func (*c14Prop) Gen(r *Rand, pl *Plan) Case {
 			spec = t.Own
 		}
 		t.Input = spec.genInput(r)
-		if i > 0 && r.Chance(1, 4) {
+		if i > 0 && (r.Chance(1, 4) || c.ShareFiles && r.Chance(1, 2)) {
 			t.Input = c.Tasks[r.Intn(i)].Input // identical inputs on purpose
 			if c.Tasks[0].Graph != t.Graph || c.Tasks[0].Construct || t.Construct {
 				t.Input = spec.genInput(r)
@@ -290,6 +295,23 @@ func (t *c14Task) observe(p parsley.Parser) (obs string) {
 
 // observeRaw also hands back the raw result (value or tree) for the aliasing oracle.
 func (t *c14Task) observeRaw(p parsley.Parser) (obs string, raw interface{}) {
+	return t.observeCtx(p, nil)
+}
+
+// prepare builds the file set, reader and context of a run around an existing file.
+func (t *c14Task) prepare(f *text.File) *parsley.Context {
+	fs := parsley.NewFileSet()
+	if t.Huge > 0 {
+		fs.AddFile(&hugeFile{n: t.Huge})
+	}
+	for i, pre := range t.Prefix {
+		fs.AddFile(text.NewFile(fmt.Sprintf("pre%d", i), []byte(pre)))
+	}
+	fs.AddFile(f)
+	return parsley.NewContext(fs, text.NewReader(f))
+}
+
+func (t *c14Task) observeCtx(p parsley.Parser, prepared *parsley.Context) (obs string, raw interface{}) {
 	defer func() {
 		if r := recover(); r != nil {
 			if _, ok := r.(sim.Abort); ok {
@@ -315,6 +337,9 @@ func (t *c14Task) observeRaw(p parsley.Parser) (obs string, raw interface{}) {
 	}
 	fs.AddFile(f)
 	ctx := parsley.NewContext(fs, text.NewReader(f))
+	if prepared != nil {
+		ctx = prepared
+	}
 	ctx.SetUserContext(fmt.Sprintf("uc%x", fnv(0, t.Input)&0xffff)) // every caller has its own evaluation context
 	if t.StaticCheck {
 		ctx.EnableStaticCheck()
@@ -480,6 +505,26 @@ func c14Run(c *c14Case, probeSequential bool) Verdict {
 		}
 		v.Probes["inputs_loaded_with_ReadFile"]++
 	}
+	prepared := make([]*parsley.Context, n+1)
+	if c.ShareFiles {
+		files := map[string]*text.File{}
+		for i := range c.Tasks {
+			t := &c.Tasks[i]
+			if t.FromFile {
+				continue
+			}
+			key := fmt.Sprintf("%q|%q|%d", t.Input, t.Prefix, t.Huge) // same placement => same offset
+			f := files[key]
+			if f == nil {
+				f = text.NewFile("in", []byte(t.Input))
+				files[key] = f
+			} else {
+				v.Probes["runs_sharing_a_file_object"]++
+			}
+			prepared[i+1] = t.prepare(f)
+			f.Position(0) // the caller resolves a position once, which builds the line table
+		}
+	}
 	before := snapshotRoots()
 	obs := make([]string, n+1)
 	raws := make([]interface{}, n+1)
@@ -495,7 +540,7 @@ func c14Run(c *c14Case, probeSequential bool) Verdict {
 			p = t.Own.construct()
 			owned[id] = p
 		}
-		obs[id], raws[id] = t.observeRaw(p)
+		obs[id], raws[id] = t.observeCtx(p, prepared[id])
 	})
 	after := snapshotRoots()
 	v.Steps = info.Steps
@@ -811,6 +856,11 @@ func (*c14Prop) Shrink(cc Case) []Case {
 				out = append(out, k)
 			}
 		}
+	}
+	if c.ShareFiles {
+		k := clone()
+		k.ShareFiles = false
+		out = append(out, k)
 	}
 	if len(c.Warm) > 0 {
 		k := clone()
